@@ -79,7 +79,7 @@ def main():
                 ok, log = build(WT)
                 res["builds"] = ok
                 if ok:
-                    rc, out = sh("sh %s/demo.sh %s" % (sd, WT), timeout=1800)
+                    rc, out = sh("bash %s/demo.sh %s" % (sd, WT), timeout=1800)
                     res["demo_with_change_rc"] = rc
                     res["demo_with_change_tail"] = out[-400:]
                     res["suite_with_change"] = suite(WT)
@@ -87,7 +87,7 @@ def main():
                     res["build_log"] = log
                 sh("git checkout -q -- . ", cwd=WT)
                 ok, log = build(WT)
-                rc, out = sh("sh %s/demo.sh %s" % (sd, WT), timeout=1800)
+                rc, out = sh("bash %s/demo.sh %s" % (sd, WT), timeout=1800)
                 res["demo_without_change_rc"] = rc
                 if rc != 0:
                     res["demo_without_change_tail"] = out[-400:]
